@@ -2,8 +2,9 @@
 import os, sys, json, random, time
 from vlib import *
 sys.path.insert(0, os.path.join(ROOT, 'translator'))
-import bytes_delegation, async_transport
+import bytes_delegation, async_transport, dev_short, ft_loops
 import transport_lib as T
+import transport_env_lib as E
 
 PROP = 'C04'
 KNOWN_PAIR = ('read_slice', 'write_slice')
@@ -19,7 +20,7 @@ def coq_flush(broken):
     the implementation is a broken correspondence."""
     allx = [e for g in PENDING for e in g[0]]
     if not allx: return
-    fails, errs = coq_check_cases('c04_all', T.COQ_HEADER, allx, shard=max(8, (len(allx) + 15) // 16))
+    fails, errs = coq_check_cases('c04_all', E.COQ_HEADER, allx, shard=max(8, (len(allx) + 15) // 16))
     for e in errs:
         broken.append({'kind': 'correspondence', 'name': 'coq evaluation of cases failed', 'log': e['log'][-800:]})
     base = 0
@@ -57,11 +58,21 @@ def run_check(tier, seed):
         async_transport.generate(REPO)
     except async_transport.TranslateError as ex:
         broken.append({'kind': 'translator', 'item': 'translator/async_transport.py', 'error': str(ex)})
+    strict = False
+    try:
+        strict = dev_short.generate(REPO)['dev_strict']
+    except dev_short.TranslateError as ex:
+        broken.append({'kind': 'translator', 'item': 'translator/dev_short.py', 'error': str(ex)})
+    try:
+        ev.cov['file_traits_flags'] = ft_loops.generate(REPO)
+    except ft_loops.TranslateError as ex:
+        broken.append({'kind': 'translator', 'item': 'translator/ft_loops.py', 'error': str(ex)})
+    ev.cov['dev_strict'] = strict
     # 2. Coq
     audit = std_audit(ev, PROP, broken)
     if tier == 'thorough' and audit['ok']: T.coqchk(PROP, ev, broken)
     # 3. harness
-    ok, out, bindir = cargo_build(['transport'], features=['async-io'])
+    ok, out, bindir = cargo_build(['transport', 'transport_env'], features=['async-io'])
     if not ok:
         broken.append({'kind': 'harness-build', 'log': out[-3000:]})
         ev.cov['rule'] = 'harness did not build'; ev.cov['samples'] = [{'note': 'no run'}]
@@ -165,6 +176,72 @@ def run_check(tier, seed):
         bad = {k: (outs[0].get(k), v) for k, v in T.MISC_EXPECTED.items() if outs[0].get(k) != v}
         if bad: findings.append({'what': 'Writer::Noop / Reader::default / Clone / flush probes differ (got, expected): %s' % bad, 'input': 'transport misc', 'sig': {'method': 'misc'}})
         ev.cov['misc_probes'] = len(T.MISC_EXPECTED)
+    # ---- the environment made explicit (Model/TransportEnv.v): chains as the driver's tables describe them, the fuse descriptor
+    #      as an oracle of per-call verdicts (real kernel objects), the retry loops / default vectored methods of file_traits.rs
+    xrng = random.Random(seed * 7907 + 4)
+    shc = E.gen_shape_vcases(xrng); shtxt = [E.case_text_vq(c) for c in shc]
+    outs, err = T.run_harness(bindir, 'virtio', shtxt, 'c04x')
+    if err: broken.append({'kind': 'harness-run', 'log': err})
+    else:
+        exprs = []; spec_bad = set()
+        for i, (c, o) in enumerate(zip(shc, outs)):
+            p04, _, shape = E.eval_vqcase(c, o)
+            evals += 1 + len(c['ops'])
+            if shape and not p04: shapes.add(('virtio',) + shape)
+            for p in p04:
+                p['input'] = shtxt[i][:8000]; spec_bad.add(i)
+                if sum(1 for f in findings if f.get('shape')) < 3: findings.append(p)       # a few per block: the replay file lists the first ten
+            exprs.append(E.vqcase_coq(c, o, with_dirty=False) if not o.get('harness_panic') else 'false')
+        ev.cov['chain_shapes'] = sorted(set(c['note'] for c in shc))
+        if coq_ok: ev.cov['model_vs_impl_chain_shapes'] = coq_compare('c04_vq', exprs, shtxt, broken, 'Model/TransportEnv.v from_vq (virtio-queue iteration + constructors) vs Reader::from_descriptor_chain / VirtioFsWriter::new', spec_bad)
+    dcs = E.gen_dcases(xrng, 60 * scale); dtxt = [E.case_text_d(c) for c in dcs]
+    outs, err = E.run_env(bindir, 'dev', dtxt, 'c04')
+    if err: broken.append({'kind': 'harness-run', 'log': err})
+    else:
+        exprs = []; spec_bad = set(); seen = {}
+        for i, (c, o) in enumerate(zip(dcs, outs)):
+            probs, orc, shape = E.eval_dcase(c, o, strict)
+            evals += 1 + len(c['ops'])
+            for x in orc[:1]: broken.append({'kind': 'oracle', 'name': 'kernel object behind a device verdict', 'detail': x})
+            if shape and not probs: shapes.add(('fusedev-dev',) + shape)
+            for p in probs:
+                spec_bad.add(i); key = json.dumps(p.get('sig'), sort_keys=True) + p['what'].split(' ')[1]
+                if key in seen: seen[key]['n_failing_cases'] += 1; continue
+                p['input'] = dtxt[i]; p['n_failing_cases'] = 1; seen[key] = p; findings.append(p)
+            exprs.append(E.dcase_coq(c, o) if not o.get('harness_panic') else 'false')
+        samples.append({'device_case': dtxt[3][:200], 'observed': json.dumps(outs[3])[:300]})
+        if coq_ok: ev.cov['model_vs_impl_device_faults'] = coq_compare('c04_d', exprs, dtxt, broken, 'Model/TransportEnv.v drun (device oracle) vs FuseDevWriter on failing / short-writing descriptors', spec_bad)
+    ftl = E.gen_ftlcases(xrng, 60 * scale); ftxt2 = [E.case_text_ftl(c) for c in ftl]
+    outs, err = E.run_env(bindir, 'ftl', ftxt2, 'c04')
+    if err: broken.append({'kind': 'harness-run', 'log': err})
+    else:
+        exprs = []; spec_bad = set(); seenm = set()
+        for i, (c, o) in enumerate(zip(ftl, outs)):
+            ps = E.eval_ftlcase(c, o); evals += 1
+            if ps:
+                spec_bad.add(i)
+                if c['method'] not in seenm: seenm.add(c['method']); findings.append(ps[0])
+            else: shapes.add(('ftl', c['method'], o['res'], len(o['log'])))
+            exprs.append(E.ftlcase_coq(c, o) if not o.get('harness_panic') else 'false')
+        if coq_ok: ev.cov['model_vs_impl_file_loops'] = coq_compare('c04_ftl', exprs, ftxt2, broken, 'Model/TransportEnv.v ft_loop vs the default loops of FileReadWriteVolatile', spec_bad)
+    vcs = E.gen_veccases(); vtxt2 = [E.case_text_vec(c) for c in vcs]
+    outs, err = E.run_env(bindir, 'vec', vtxt2, 'c04')
+    if err: broken.append({'kind': 'harness-run', 'log': err})
+    else:
+        exprs = []; spec_bad = set(); seenm = set()
+        for i, (c, o) in enumerate(zip(vcs, outs)):
+            ps = E.eval_veccase(c, o); evals += 1
+            if ps:
+                spec_bad.add(i)
+                if c['method'] not in seenm: seenm.add(c['method']); findings.append(ps[0])
+            exprs.append(E.veccase_coq(c, o) if not o.get('harness_panic') else 'false')
+        if coq_ok: coq_compare('c04_vec', exprs, vtxt2, broken, 'Model/TransportEnv.v dflt_vectored (flags of Gen/FtLoops.v) vs the default vectored methods', set())
+    outs, err = E.run_env(bindir, 'e2e', ['first=0', 'first=4'], 'c04')
+    if err: broken.append({'kind': 'harness-run', 'log': err})
+    else:
+        for f0, o in zip((0, 4), outs):
+            evals += 1
+            for p in E.eval_e2e(f0, o)[:1]: findings.append(p)
     coq_flush(broken)
     ev.cov['evaluations'] = evals
     ev.cov['distinct_nontrivial'] = len(shapes)
@@ -177,12 +254,18 @@ def run_check(tier, seed):
 def replay(path):
     """re-run the failing inputs of a replay file on the current tree and print what the implementation does"""
     obj = json.load(open(path))
-    ok, out, bindir = cargo_build(['transport'], features=['async-io'])
+    ok, out, bindir = cargo_build(['transport', 'transport_env'], features=['async-io'])
     if not ok: print(out[-2000:]); return 2
     rc = 0
     for f in obj.get('failing', []) + [b for b in obj.get('broken', []) if b.get('case')]:
         txt = f.get('input') or f.get('case')
         if not txt: continue
+        if ' script=' in txt or txt.startswith('transport_env e2e') or (' lens=' in txt):
+            sub = 'dev' if ' cap=' in txt else ('ftl' if ' foff=' in txt else ('vec' if ' lens=' in txt else 'e2e'))
+            outs, err = E.run_env(bindir, sub, [txt.replace('transport_env e2e ', '')], 'replay')
+            print('transport_env', sub, txt[:400]); print('  ->', json.dumps(outs[0])[:1000] if outs else err)
+            print('  reported:', f.get('what') or f.get('name')); rc = 1
+            continue
         sub = 'bytes' if ' method=' in txt else ('fusedev' if ' cap=' in txt else 'virtio')
         outs, err = T.run_harness(bindir, sub, [txt], 'replay')
         print(sub, txt[:400]); print('  ->', json.dumps(outs[0])[:1000] if outs else err)
